@@ -128,7 +128,9 @@ func RunWide(c WideCase) error {
 	if dup {
 		fp := cov.FPs("wide", fmt.Sprint(c))
 		rec.NonTrivial(fp)
-		rec.Sample(fp, func() any { return map[string]any{"wide": fmt.Sprintf("%+v", c), "text_prefix": text[:min(len(text), 120)]} })
+		rec.Sample(fp, func() any {
+			return map[string]any{"wide": fmt.Sprintf("%+v", c), "text_prefix": text[:min(len(text), 120)]}
+		})
 	}
 	var err error
 	if p := rt.Guard(func() { err = json.Unmarshal([]byte(text), target) }); p != nil {
